@@ -386,6 +386,28 @@ def repurpose(c, n, rows, rng):
     return new_rows
 
 
+def dup_rename(c, n, rows, rng):
+    """Mark one output gate as output a second (third) time, then rename that gate: every output position must follow."""
+    m = len(rows)
+    j = rng.randrange(m)
+    with monitor.suspended():
+        outs = list(c.outputs)
+        ol = outs[j]
+        extra = rng.randint(1, 2)
+        new_outs = outs + [ol] * extra
+        if rng.random() < 0.5:
+            new_outs = [ol] + outs
+            new_rows = [rows[j]] + list(rows)
+        else:
+            new_rows = list(rows) + [rows[j]] * extra
+        c.set_outputs(new_outs)
+        nl = 'renamed_' + ol
+        if c.has_gate(nl):
+            return None
+        c.rename_gate(ol, nl)
+    return new_rows
+
+
 def _drive_all(rows, n, r2, ctx, case):
     m = len(rows)
     for make, nm in ((make_truth_table, 'TruthTable'), (make_pyfunction, 'PyFunction'), (make_circuit, 'Circuit')):
@@ -394,11 +416,11 @@ def _drive_all(rows, n, r2, ctx, case):
             drive(obj, n, m, r2)
             if nm == 'Circuit' and r2.random() < 0.5:
                 # query - edit under the same labels - query again: answers must follow the object's current state
-                rows2 = repurpose(obj, n, rows, r2)
+                rows2 = repurpose(obj, n, rows, r2) if r2.random() < 0.6 else dup_rename(obj, n, rows, r2)
                 if rows2 is not None:
                     register(obj, n, rows2)
                     ctx.count('requeried_after_edit')
-                    drive(obj, n, m, r2)
+                    drive(obj, n, len(rows2), r2)
         except Exception as e:
             ctx.unexpected(nm + ' protocol', e, case)
 
